@@ -133,6 +133,7 @@ class Analyzer:
                     states = out
                     i = j + 1
                 elif name == "for":
+                    self.site(i, line, "for:" + re.sub(r"\s+", "", rest), (), {"-"})  # no output: state irrelevant
                     cur = set(states)
                     while True:
                         j, st, _ = self.seq(nodes, i + 1, set(cur), ("endfor",))
